@@ -401,10 +401,23 @@ def run(R):
         R.check(okc, 'C17.R3', 'content-type', site(cb), 'content-type: application/grpc-web inserted')
         R.eq(web.const('call::content_types::GRPC_WEB').get('v'), 'application/grpc-web', 'C17.R3', 'GRPC_WEB-const', '', 'GRPC_WEB')
         mp = cb.calls(pat='Request', name='map')
-        R.check(len(mp) == 1 and any('k' in a and a['k'].get('fn', '').endswith('client_request') for a in mp[0][1]['args']), 'C17.R3', 'request-wrapped', site(cb), 'req.map(GrpcWebCall::client_request)')
+        def maps_with(body_, t_, ctor):
+            # .map(GrpcWebCall::<ctor>) or .map(|b| GrpcWebCall::<ctor>(b, ..)) with the closure's own parameter as the body
+            for a in t_['args']:
+                if 'k' in a and a['k'].get('fn', '').endswith(ctor):
+                    return True
+                o_ = strip_refs(body_.origin(a))
+                if o_ and o_[0] == 'agg' and isinstance(o_[1], dict) and o_[1].get('def'):
+                    cl_ = [x for x in web.bodies if x.path == o_[1]['def']]
+                    for c_ in cl_:
+                        for bb2, t2 in c_.calls(name=ctor):
+                            if 'GrpcWebCall' in (t2.get('fn') or '') and arg_root(strip_refs(c_.origin(t2['args'][0]))) == 2 and t2['dest']['l'] == 0:
+                                return True
+            return False
+        R.check(len(mp) == 1 and maps_with(cb, mp[0][1], 'client_request'), 'C17.R3', 'request-wrapped', site(cb), 'req.map(GrpcWebCall::client_request)')
         rp = web.body(re.compile(r'client::ResponseFuture<F> as std::future::Future>::poll$'))
         fam = [rp] + [c for c in web.bodies if c.path.startswith(rp.path + '::') and c.kind == 'closure']
-        okr = any(any('k' in a and a['k'].get('fn', '').endswith('client_response') for a in t['args']) for fb in fam for bb, t in fb.calls(name='map'))
+        okr = any(maps_with(fb, t, 'client_response') for fb in fam for bb, t in fb.calls(name='map'))
         R.check(okr, 'C17.R3', 'response-wrapped', site(rp), 'response.map(GrpcWebCall::client_response)')
         # .. whatever the response says about itself: no other body wrapper is chosen (e.g. by content-type) next to client_response
         other_wrap = [t['name'] for fb in fam for bb, t in fb.calls() if 'GrpcWebCall' in (t.get('fn') or '') and t.get('name') in ('request', 'response', 'client_request', 'new')]
